@@ -675,6 +675,23 @@ func (ev *Evaluator) call(x *ECall) SVal {
 				return SVal{v: Val{t: fmt.Sprintf("(or (= (scap %s) 0) (> (sobj %s) %s))", p.v.t, p.v.t, ev.old.alloc)}, typ: boolT}
 			}
 			return SVal{v: Val{t: fmt.Sprintf("(> (obj %s) %s)", p.v.t, ev.old.alloc)}, typ: boolT}
+		case "sinceLoop", "beforeLoop":
+			// allocated after / not after the entry of the enclosing loop
+			if ev.pre == nil {
+				unsupported("spec: %s() is only available in loop invariants", x.Fun)
+			}
+			p := ev.eval(x.Args[0])
+			o := "(obj " + p.v.t + ")"
+			if fx.sortOfS(p) == "Slice" {
+				o = "(sobj " + p.v.t + ")"
+				if x.Fun == "sinceLoop" {
+					return SVal{v: Val{t: fmt.Sprintf("(or (= (scap %s) 0) (> %s %s))", p.v.t, o, ev.pre.alloc)}, typ: boolT}
+				}
+			}
+			if x.Fun == "sinceLoop" {
+				return SVal{v: Val{t: fmt.Sprintf("(> %s %s)", o, ev.pre.alloc)}, typ: boolT}
+			}
+			return SVal{v: Val{t: fmt.Sprintf("(<= %s %s)", o, ev.pre.alloc)}, typ: boolT}
 		case "obj":
 			p := ev.eval(x.Args[0])
 			if fx.sortOfS(p) == "Slice" {
@@ -696,6 +713,9 @@ func (ev *Evaluator) call(x *ECall) SVal {
 		case "loc":
 			t := ev.eval(x.Args[0])
 			return SVal{v: Val{t: "(t_loc " + t.v.t + ")"}, sort: "Ref"}
+		case "itoa":
+			a := ev.eval(x.Args[0])
+			return SVal{v: Val{t: intToStr(a.v.t)}, typ: stringT}
 		case "toInt":
 			s := ev.eval(x.Args[0])
 			return SVal{v: Val{t: "(str.to_int " + s.v.t + ")"}, typ: intT}
@@ -995,7 +1015,7 @@ func (fr *Frame) lookupName(name string, st *State, li *loopInfo) (SVal, bool) {
 			li.resolved = map[string]ssa.Value{}
 			li.resolvedAddr = map[string]bool{}
 		}
-		if v, ok := li.resolved[name]; ok {
+		if v, ok := li.resolved[name]; ok && fr.evalAt == nil {
 			return fr.nameVal(v, li.resolvedAddr[name], st), true
 		}
 		for _, ins := range li.header.Instrs {
@@ -1013,7 +1033,7 @@ func (fr *Frame) lookupName(name string, st *State, li *loopInfo) (SVal, bool) {
 		return fr.nameVal(v, true, st), true
 	}
 	if v := fr.resolveDebugName(name, li); v != nil {
-		if li != nil {
+		if li != nil && fr.evalAt == nil {
 			li.resolved[name] = v
 		}
 		return fr.nameVal(v, false, st), true
@@ -1025,13 +1045,13 @@ func (fr *Frame) lookupName(name string, st *State, li *loopInfo) (SVal, bool) {
 // among all values the debug information associates with the name, the one defined deepest in the dominator
 // tree that still dominates the program point. (Declarations may carry a zero constant; uses carry the value.)
 func (fr *Frame) resolveDebugName(name string, li *loopInfo) ssa.Value {
-	if fr.debugRefs == nil {
-		fr.debugRefs = map[string][]ssa.Value{}
+	if fr.debugRefs2 == nil {
+		fr.debugRefs2 = map[string][]*ssa.DebugRef{}
 		for _, b := range fr.fn.Blocks {
 			for _, ins := range b.Instrs {
 				if d, ok := ins.(*ssa.DebugRef); ok && !d.IsAddr {
 					if obj := d.Object(); obj != nil {
-						fr.debugRefs[obj.Name()] = append(fr.debugRefs[obj.Name()], d.X)
+						fr.debugRefs2[obj.Name()] = append(fr.debugRefs2[obj.Name()], d)
 					}
 				}
 			}
@@ -1046,32 +1066,99 @@ func (fr *Frame) resolveDebugName(name string, li *loopInfo) ssa.Value {
 		}
 		return d
 	}
-	for _, v := range fr.debugRefs[name] {
-		d := -1
-		if ins, ok := v.(ssa.Instruction); ok {
-			vb := ins.Block()
-			if li != nil {
-				if vb == li.header || !vb.Dominates(li.header) {
-					if _, isPhi := v.(*ssa.Phi); !(isPhi && vb == li.header) {
-						continue
+	dominatesPoint := func(b *ssa.BasicBlock) bool {
+		if fr.evalAt != nil {
+			// a step clause is evaluated at the end of block evalAt (back edge): body-local variables are visible
+			return b == fr.evalAt || b.Dominates(fr.evalAt)
+		}
+		if li == nil {
+			return true
+		}
+		return b != li.header && b.Dominates(li.header)
+	}
+	// (a) loop-carried variables of enclosing loops: phis named after the variable
+	if li != nil {
+		for _, b := range fr.fn.Blocks {
+			if !(b == li.header || b.Dominates(li.header)) {
+				continue
+			}
+			for _, ins := range b.Instrs {
+				phi, ok := ins.(*ssa.Phi)
+				if !ok {
+					break
+				}
+				if phi.Comment == name {
+					if _, bound := fr.env[phi]; bound {
+						if d := depth(b) * 100000; d > bestDepth {
+							best, bestDepth = phi, d
+						}
 					}
 				}
 			}
-			if _, bound := fr.env[v]; !bound {
-				continue
-			}
-			d = depth(vb)*100000 + indexInBlock(ins)
-		} else if !isConstLike(v) {
-			if _, bound := fr.env[v]; !bound {
-				continue
-			}
-			d = 0
 		}
-		if d > bestDepth {
+	}
+	// (b) associations "name denotes v" made on every path to the program point
+	var declObj types.Object
+	for _, dr := range fr.debugRefs2[name] {
+		v := dr.X
+		db := dr.Block()
+		if !dominatesPoint(db) {
+			continue
+		}
+		if isConstLike(v) {
+			if c, isC := v.(*ssa.Const); isC && c.Value == nil || isZeroConst(v) {
+				declObj = dr.Object()
+				continue // a declaration's zero value: see (c)
+			}
+		} else if _, bound := fr.env[v]; !bound {
+			continue
+		}
+		if d := depth(db)*100000 + indexInBlock(dr); d > bestDepth {
 			best, bestDepth = v, d
 		}
 	}
+	if best != nil {
+		return best
+	}
+	// (c) the declaration carried only the zero value (x := make(...), x := T{...}): take the value later uses of
+	// the same variable refer to, provided it is defined before the program point
+	for _, dr := range fr.debugRefs2[name] {
+		if declObj != nil && dr.Object() != declObj {
+			continue
+		}
+		ins, ok := dr.X.(ssa.Instruction)
+		if !ok {
+			continue
+		}
+		if _, isPhi := dr.X.(*ssa.Phi); isPhi {
+			continue
+		}
+		if !dominatesPoint(ins.Block()) {
+			continue
+		}
+		if _, bound := fr.env[dr.X]; !bound {
+			continue
+		}
+		if d := depth(ins.Block())*100000 + indexInBlock(ins); d > bestDepth {
+			best, bestDepth = dr.X, d
+		}
+	}
+	if best == nil && declObj != nil {
+		for _, dr := range fr.debugRefs2[name] {
+			if isConstLike(dr.X) && dominatesPoint(dr.Block()) {
+				return dr.X
+			}
+		}
+	}
 	return best
+}
+
+func isZeroConst(v ssa.Value) bool {
+	c, ok := v.(*ssa.Const)
+	if !ok {
+		return false
+	}
+	return c.Value == nil
 }
 
 func indexInBlock(ins ssa.Instruction) int {
